@@ -30,6 +30,16 @@ type SCond stackage.Condition
 
 func (r SCond) String() string { return stackage.Condition(r).String() }
 
+// XStack / XCond are aliases whose own String method does NOT agree with the native rendering: the parent must still
+// treat them exactly like the native value they convert to.
+type XStack stackage.Stack
+
+func (r XStack) String() string { return "<custom stack text>" }
+
+type XCond stackage.Condition
+
+func (r XCond) String() string { return "<custom condition text>" }
+
 // ---------------------------------------------------------------- recursive snapshots
 
 // Snap is a recursive VerifDump: the raw record of a Stack/Condition plus the
@@ -198,6 +208,7 @@ func normEnc(e [][]string) [][]string {
 type DiffOpts struct {
 	IgnoreOpt uint16   // option bits ignored at the root only
 	SkipRoot  []string // cfg fields skipped at the root only
+	Shallow   bool     // compare the root instance only: nested Stacks/Conditions by identity, not by their insides
 }
 
 // Diff returns "" when the two recursive snapshots describe exactly the same state,
@@ -245,6 +256,9 @@ func diff(a, b *Snap, o DiffOpts, path string, root bool) string {
 				if a.Kids[i].ident() != b.Kids[i].ident() {
 					return p + ": nested instance replaced"
 				}
+				if o.Shallow {
+					continue
+				}
 				if d := diff(a.Kids[i], b.Kids[i], o, p, false); d != "" {
 					return d
 				}
@@ -272,6 +286,9 @@ func diff(a, b *Snap, o DiffOpts, path string, root bool) string {
 	if a.Expr != nil {
 		if a.Expr.ident() != b.Expr.ident() {
 			return path + ".ex: nested instance replaced"
+		}
+		if o.Shallow {
+			return ""
 		}
 		return diff(a.Expr, b.Expr, o, path+".ex", false)
 	}
